@@ -578,12 +578,98 @@ func NilCheck(v ssa.Value) (x ssa.Value, eq bool, ok bool) {
 
 // KnownNil reports whether facts establish x == nil (want=true) or x != nil.
 func KnownNil(facts []Fact, x ssa.Value, want bool) bool {
+	if x == nil {
+		return false
+	}
+	rx := ResolveLoad(x)
 	for _, f := range facts {
-		if y, eq, ok := NilCheck(f.Cond); ok && y == x && (eq == f.Val) == want {
-			return true
+		if y, eq, ok := NilCheck(f.Cond); ok && (eq == f.Val) == want {
+			if y == x || ResolveLoad(y) == rx {
+				return true
+			}
 		}
 	}
 	return false
+}
+
+// ClosureWrites reports whether the closure stores through its binding of al.
+func ClosureWrites(mc *ssa.MakeClosure, al ssa.Value) bool {
+	fn, ok := mc.Fn.(*ssa.Function)
+	if !ok {
+		return true
+	}
+	for i, b := range mc.Bindings {
+		if b != al || i >= len(fn.FreeVars) {
+			continue
+		}
+		fv := fn.FreeVars[i]
+		for _, r := range Referrers(fv) {
+			switch y := r.(type) {
+			case *ssa.Store:
+				if y.Addr == ssa.Value(fv) {
+					return true
+				}
+			case *ssa.UnOp, *ssa.DebugRef:
+			case *ssa.MakeClosure:
+				if ClosureWrites(y, fv) {
+					return true
+				}
+			default:
+				return true
+			}
+		}
+	}
+	return false
+}
+
+// ResolveLoad maps a load of a local cell to the value stored into that cell
+// by the nearest preceding store in the same block (go/ssa keeps variables
+// captured by closures in memory, so `err = f(); if err != nil` tests a fresh
+// load). Calls between the store and the load invalidate only cells that a
+// closure able to write them may reach (deferred closures run at rundefers).
+func ResolveLoad(v ssa.Value) ssa.Value {
+	for depth := 0; depth < 6; depth++ {
+		u, ok := v.(*ssa.UnOp)
+		if !ok || u.Op != token.MUL {
+			return v
+		}
+		al, ok := u.X.(*ssa.Alloc)
+		if !ok {
+			return v
+		}
+		blk := u.Block()
+		idx := IndexIn(u)
+		var found ssa.Value
+		for k := idx - 1; k >= 0; k-- {
+			switch y := blk.Instrs[k].(type) {
+			case *ssa.Store:
+				if y.Addr == ssa.Value(al) {
+					found = y.Val
+				}
+			case *ssa.RunDefers:
+				return v
+			case *ssa.Call:
+				// a direct call of a closure that writes the cell
+				if mc, ok := y.Call.Value.(*ssa.MakeClosure); ok && ClosureWrites(mc, al) {
+					return v
+				}
+			}
+			if found != nil {
+				break
+			}
+		}
+		if found == nil {
+			// single-store cell: the stored value, wherever it was stored
+			o := Origin(v)
+			if o == v {
+				return v
+			}
+			v = o
+			continue
+		}
+		v = found
+	}
+	return v
 }
 
 // Path describes an access path rooted at a parameter, free variable, global
@@ -812,7 +898,9 @@ func Origin(v ssa.Value) ssa.Value {
 				case *ssa.UnOp, *ssa.Slice, *ssa.DebugRef, *ssa.IndexAddr:
 					// reads / sub-slices for reading
 				case *ssa.MakeClosure:
-					n += 2 // captured: may be written elsewhere
+					if ClosureWrites(y, al) {
+						n += 2 // captured and written by the closure
+					}
 				default:
 					n += 2
 				}
